@@ -169,12 +169,12 @@ type alWalker struct {
 	localWidth map[string]int
 }
 
-func selectorPath(e ast.Expr) (root string, path []string, ok bool) {
+func c27SelectorPath(e ast.Expr) (root string, path []string, ok bool) {
 	switch v := e.(type) {
 	case *ast.Ident:
 		return v.Name, nil, true
 	case *ast.SelectorExpr:
-		r, p, ok := selectorPath(v.X)
+		r, p, ok := c27SelectorPath(v.X)
 		if !ok {
 			return "", nil, false
 		}
@@ -190,7 +190,7 @@ func (w *alWalker) rooted(e ast.Expr) []string {
 	visit = func(e ast.Expr) {
 		switch v := e.(type) {
 		case *ast.SelectorExpr:
-			if root, path, ok := selectorPath(v); ok {
+			if root, path, ok := c27SelectorPath(v); ok {
 				if pre, isRoot := w.roots[root]; isRoot {
 					// longest prefix of path that names a known leaf field
 					for n := len(path); n >= 1; n-- {
@@ -237,7 +237,7 @@ func (w *alWalker) oneField(e ast.Expr) (string, error) {
 	return f[0], nil
 }
 
-func callName(x *ExtractCtx, c *ast.CallExpr) string { return x.Src(c.Fun) }
+func c27CallName(x *ExtractCtx, c *ast.CallExpr) string { return x.Src(c.Fun) }
 
 func (w *alWalker) constInt(e ast.Expr) (int, bool) {
 	s := w.x.Src(e)
@@ -253,7 +253,7 @@ func (w *alWalker) constInt(e ast.Expr) (int, bool) {
 
 // handleCall interprets one I/O call. target is the assignment target of a read (may be nil).
 func (w *alWalker) handleCall(c *ast.CallExpr, target ast.Expr) error {
-	name := callName(w.x, c)
+	name := c27CallName(w.x, c)
 	addRead := func(width int, tgt ast.Expr) error {
 		if tgt == nil {
 			return fmt.Errorf("read %s without a target", name)
@@ -368,7 +368,7 @@ func (w *alWalker) declLocal(ds *ast.DeclStmt) error {
 	return nil
 }
 
-func isErrNotNil(x *ExtractCtx, e ast.Expr) bool { return x.Src(e) == "err != nil" }
+func c27IsErrNotNil(x *ExtractCtx, e ast.Expr) bool { return x.Src(e) == "err != nil" }
 
 // versionCond evaluates `e.Version <op> INT` for the walker's version.
 func (w *alWalker) versionCond(e ast.Expr) (bool, bool) {
@@ -399,8 +399,8 @@ func (w *alWalker) versionCond(e ast.Expr) (bool, bool) {
 	return false, false
 }
 
-// onlyExits: the block only returns / panics (error path of a guard).
-func onlyExits(x *ExtractCtx, b *ast.BlockStmt) bool {
+// c27OnlyExits: the block only returns / panics (error path of a guard).
+func c27OnlyExits(x *ExtractCtx, b *ast.BlockStmt) bool {
 	for _, s := range b.List {
 		switch v := s.(type) {
 		case *ast.ReturnStmt:
@@ -465,7 +465,7 @@ func (w *alWalker) stmt(s ast.Stmt) error {
 	case *ast.IfStmt:
 		if v.Init != nil {
 			a, ok := v.Init.(*ast.AssignStmt)
-			if !ok || len(a.Rhs) != 1 || !isErrNotNil(w.x, v.Cond) || !onlyExits(w.x, v.Body) || v.Else != nil {
+			if !ok || len(a.Rhs) != 1 || !c27IsErrNotNil(w.x, v.Cond) || !c27OnlyExits(w.x, v.Body) || v.Else != nil {
 				return fmt.Errorf("unrecognised if %s", w.x.Src(s))
 			}
 			c, ok := a.Rhs[0].(*ast.CallExpr)
@@ -480,7 +480,7 @@ func (w *alWalker) stmt(s ast.Stmt) error {
 			}
 			return w.handleCall(c, tgt)
 		}
-		if isErrNotNil(w.x, v.Cond) && onlyExits(w.x, v.Body) && v.Else == nil {
+		if c27IsErrNotNil(w.x, v.Cond) && c27OnlyExits(w.x, v.Body) && v.Else == nil {
 			return nil
 		}
 		if val, ok := w.versionCond(v.Cond); ok {
@@ -497,7 +497,7 @@ func (w *alWalker) stmt(s ast.Stmt) error {
 			}
 		}
 		// length guard: if len(X) != CONST { exit }
-		if b, ok := v.Cond.(*ast.BinaryExpr); ok && b.Op == token.NEQ && v.Else == nil && onlyExits(w.x, v.Body) {
+		if b, ok := v.Cond.(*ast.BinaryExpr); ok && b.Op == token.NEQ && v.Else == nil && c27OnlyExits(w.x, v.Body) {
 			if c, ok := b.X.(*ast.CallExpr); ok && w.x.Src(c.Fun) == "len" && len(c.Args) == 1 {
 				if n, ok := w.constInt(b.Y); ok {
 					f, err := w.oneField(c.Args[0])
@@ -630,8 +630,8 @@ func (w *alWalker) finish() ([]alEvent, error) {
 	return w.events, nil
 }
 
-// walkFunc splits the body at the (type) switch over the details and walks the three sections.
-func walkFunc(x *ExtractCtx, t *alTypes, fields map[string]int, fd *ast.FuncDecl, version int, verCmp *[]int) (*alFuncFacts, error) {
+// c27WalkFunc splits the body at the (type) switch over the details and walks the three sections.
+func c27WalkFunc(x *ExtractCtx, t *alTypes, fields map[string]int, fd *ast.FuncDecl, version int, verCmp *[]int) (*alFuncFacts, error) {
 	base := &alWalker{x: x, t: t, version: version, roots: map[string]string{"e": ""}, fields: fields,
 		fixedLen: map[string]int{}, pending: map[string]int{}, localWidth: map[string]int{}}
 	res := &alFuncFacts{kinds: map[string][]alEvent{}, derived: map[string][]string{}}
@@ -774,7 +774,7 @@ func (j *alJSONCtx) side(e ast.Expr, roots map[string]string, locals map[string]
 	visit = func(e ast.Expr) {
 		switch v := e.(type) {
 		case *ast.SelectorExpr:
-			if root, path, ok := selectorPath(v); ok {
+			if root, path, ok := c27SelectorPath(v); ok {
 				if pre, isRoot := roots[root]; isRoot {
 					for k := len(path); k >= 1; k-- {
 						name := pre + strings.Join(path[:k], ".")
@@ -816,7 +816,7 @@ func (j *alJSONCtx) side(e ast.Expr, roots map[string]string, locals map[string]
 	return
 }
 
-func codecOf(wrappers []string, width int) (string, error) {
+func c27CodecOf(wrappers []string, width int) (string, error) {
 	has := func(s string) bool {
 		for _, w := range wrappers {
 			if w == s {
@@ -850,7 +850,7 @@ func (j *alJSONCtx) jsonSide(e ast.Expr, jroots map[string]string, locals map[st
 	visit = func(e ast.Expr) {
 		switch v := e.(type) {
 		case *ast.SelectorExpr:
-			if root, p, ok := selectorPath(v); ok {
+			if root, p, ok := c27SelectorPath(v); ok {
 				if sn, isRoot := jroots[root]; isRoot {
 					stName, path = sn, p
 					n++
@@ -906,7 +906,7 @@ func (j *alJSONCtx) writeLit(cl *ast.CompositeLit, stName, pathPrefix string, ro
 		if n != 1 {
 			return nil, fmt.Errorf("%s.%s: cannot resolve the entry field of %q", stName, key, j.x.Src(kv.Value))
 		}
-		codec, err := codecOf(wr, j.fields[f])
+		codec, err := c27CodecOf(wr, j.fields[f])
 		if err != nil {
 			return nil, fmt.Errorf("%s.%s: %w", stName, key, err)
 		}
@@ -948,7 +948,7 @@ func (j *alJSONCtx) readLit(cl *ast.CompositeLit, fieldPrefix, pathPrefix string
 		if err != nil {
 			return nil, err
 		}
-		codec, err := codecOf(wr, j.fields[f])
+		codec, err := c27CodecOf(wr, j.fields[f])
 		if err != nil {
 			return nil, fmt.Errorf("%s: %w", f, err)
 		}
@@ -969,8 +969,8 @@ type alJSONFacts struct {
 	legacyMax      int
 }
 
-// collectLocals gathers `x, _ := f(...)` / `x := expr` definitions of a statement list (flat + nested).
-func collectLocals(stmts []ast.Stmt, into map[string]ast.Expr) {
+// c27CollectLocals gathers `x, _ := f(...)` / `x := expr` definitions of a statement list (flat + nested).
+func c27CollectLocals(stmts []ast.Stmt, into map[string]ast.Expr) {
 	for _, s := range stmts {
 		ast.Inspect(s, func(n ast.Node) bool {
 			if a, ok := n.(*ast.AssignStmt); ok && a.Tok == token.DEFINE && len(a.Rhs) == 1 {
@@ -987,7 +987,7 @@ func collectLocals(stmts []ast.Stmt, into map[string]ast.Expr) {
 	}
 }
 
-func findLits(n ast.Node, x *ExtractCtx, typeName string) []*ast.CompositeLit {
+func c27FindLits(n ast.Node, x *ExtractCtx, typeName string) []*ast.CompositeLit {
 	var out []*ast.CompositeLit
 	ast.Inspect(n, func(n ast.Node) bool {
 		if cl, ok := n.(*ast.CompositeLit); ok && cl.Type != nil && x.Src(cl.Type) == typeName {
@@ -998,7 +998,7 @@ func findLits(n ast.Node, x *ExtractCtx, typeName string) []*ast.CompositeLit {
 	return out
 }
 
-func extractJSON(x *ExtractCtx, f *ast.File, fields map[string]int) (*alJSONFacts, error) {
+func c27ExtractJSON(x *ExtractCtx, f *ast.File, fields map[string]int) (*alJSONFacts, error) {
 	j := &alJSONCtx{x: x, structs: map[string]*ast.StructType{}, fields: fields}
 	for _, d := range f.Decls {
 		if gd, ok := d.(*ast.GenDecl); ok {
@@ -1022,7 +1022,7 @@ func extractJSON(x *ExtractCtx, f *ast.File, fields map[string]int) (*alJSONFact
 	var err error
 
 	// ---- Encode: jsonEntry literal
-	lits := findLits(enc, x, "jsonEntry")
+	lits := c27FindLits(enc, x, "jsonEntry")
 	if len(lits) != 1 {
 		return nil, fmt.Errorf("expected exactly one jsonEntry literal in Encode, found %d", len(lits))
 	}
@@ -1053,7 +1053,7 @@ func extractJSON(x *ExtractCtx, f *ast.File, fields map[string]int) (*alJSONFact
 				return nil, fmt.Errorf("json Encode genesis: unrecognised body")
 			}
 		case "grounding":
-			l := findLits(cc, x, "jsonGroundingDetails")
+			l := c27FindLits(cc, x, "jsonGroundingDetails")
 			if len(l) != 1 {
 				return nil, fmt.Errorf("json Encode grounding: expected one jsonGroundingDetails literal")
 			}
@@ -1076,7 +1076,7 @@ func extractJSON(x *ExtractCtx, f *ast.File, fields map[string]int) (*alJSONFact
 			n, _ := strconv.Atoi(x.Src(b.Y))
 			res.legacyMax = n
 			roots := map[string]string{bind: "Log."}
-			l := findLits(ifs.Body, x, "jsonLogDetailsV1")
+			l := c27FindLits(ifs.Body, x, "jsonLogDetailsV1")
 			if len(l) != 1 {
 				return nil, fmt.Errorf("json Encode log legacy: expected one jsonLogDetailsV1 literal")
 			}
@@ -1105,7 +1105,7 @@ func extractJSON(x *ExtractCtx, f *ast.File, fields map[string]int) (*alJSONFact
 				if c, ok := a.Rhs[0].(*ast.CallExpr); ok && x.Src(c.Fun) == "json.Marshal" && len(c.Args) == 1 && x.Src(c.Args[0]) == payload {
 					continue
 				}
-				root, path, ok := selectorPath(a.Lhs[0])
+				root, path, ok := c27SelectorPath(a.Lhs[0])
 				if !ok || root != payload || len(a.Lhs) != 1 {
 					return nil, fmt.Errorf("json Encode log: unrecognised statement %s", x.Src(s))
 				}
@@ -1117,7 +1117,7 @@ func extractJSON(x *ExtractCtx, f *ast.File, fields map[string]int) (*alJSONFact
 				if cnt != 1 {
 					return nil, fmt.Errorf("json Encode log: cannot resolve %s", x.Src(a.Rhs[0]))
 				}
-				codec, err := codecOf(wr, fields[fl])
+				codec, err := c27CodecOf(wr, fields[fl])
 				if err != nil {
 					return nil, err
 				}
@@ -1130,9 +1130,9 @@ func extractJSON(x *ExtractCtx, f *ast.File, fields map[string]int) (*alJSONFact
 
 	// ---- Decode
 	locals := map[string]ast.Expr{}
-	collectLocals(dec.Body.List, locals)
+	c27CollectLocals(dec.Body.List, locals)
 	jroots := map[string]string{"je": "jsonEntry"}
-	el := findLits(dec, x, "auditlog.Entry")
+	el := c27FindLits(dec, x, "auditlog.Entry")
 	if len(el) != 1 {
 		return nil, fmt.Errorf("expected exactly one auditlog.Entry literal in Decode")
 	}
@@ -1162,7 +1162,7 @@ func extractJSON(x *ExtractCtx, f *ast.File, fields map[string]int) (*alJSONFact
 		switch kind {
 		case "genesis":
 		case "grounding":
-			l := findLits(cc, x, "auditlog.GroundingDetails")
+			l := c27FindLits(cc, x, "auditlog.GroundingDetails")
 			if len(l) != 1 || !strings.Contains(x.Src(cc), "var jd jsonGroundingDetails") {
 				return nil, fmt.Errorf("json Decode grounding: unrecognised shape")
 			}
@@ -1189,7 +1189,7 @@ func extractJSON(x *ExtractCtx, f *ast.File, fields map[string]int) (*alJSONFact
 			if _, ok := ifs.Body.List[len(ifs.Body.List)-1].(*ast.BranchStmt); !ok {
 				return nil, fmt.Errorf("json Decode log: legacy branch does not end in break")
 			}
-			l := findLits(ifs.Body, x, "auditlog.LogDetails")
+			l := c27FindLits(ifs.Body, x, "auditlog.LogDetails")
 			if len(l) != 1 {
 				return nil, fmt.Errorf("json Decode log legacy: expected one LogDetails literal")
 			}
@@ -1204,7 +1204,7 @@ func extractJSON(x *ExtractCtx, f *ast.File, fields map[string]int) (*alJSONFact
 				if strings.Contains(x.Src(s), "var jd jsonLogDetails") {
 					sawDecl = true
 				}
-				l2 = append(l2, findLits(s, x, "auditlog.LogDetails")...)
+				l2 = append(l2, c27FindLits(s, x, "auditlog.LogDetails")...)
 			}
 			if !sawDecl || len(l2) != 1 {
 				return nil, fmt.Errorf("json Decode log: expected `var jd jsonLogDetails` and one LogDetails literal")
@@ -1223,7 +1223,7 @@ func extractJSON(x *ExtractCtx, f *ast.File, fields map[string]int) (*alJSONFact
 
 // ---------------------------------------------------------------- emission
 
-func leanEvents(ev []alEvent) (string, error) {
+func c27LeanEvents(ev []alEvent) (string, error) {
 	parts := make([]string, len(ev))
 	for i, e := range ev {
 		if e.Width < 0 {
@@ -1234,7 +1234,7 @@ func leanEvents(ev []alEvent) (string, error) {
 	return "[" + strings.Join(parts, ", ") + "]", nil
 }
 
-func leanFields(fs []alField) string {
+func c27LeanFields(fs []alField) string {
 	parts := make([]string, len(fs))
 	for i, f := range fs {
 		parts[i] = fmt.Sprintf("(%s, %d)", LeanStr(f.Name), f.Width)
@@ -1242,7 +1242,7 @@ func leanFields(fs []alField) string {
 	return "[" + strings.Join(parts, ", ") + "]"
 }
 
-func leanJSON(js []alJSON) string {
+func c27LeanJSON(js []alJSON) string {
 	parts := make([]string, len(js))
 	for i, e := range js {
 		parts[i] = fmt.Sprintf("(%s, %s, %v, %s)", LeanStr(e.Field), LeanStr(e.Path), e.Omit, LeanStr(e.Codec))
@@ -1250,7 +1250,7 @@ func leanJSON(js []alJSON) string {
 	return "[" + strings.Join(parts, ",\n    ") + "]"
 }
 
-func eventsEqual(a, b []alEvent) bool {
+func c27EventsEqual(a, b []alEvent) bool {
 	if len(a) != len(b) {
 		return false
 	}
@@ -1352,13 +1352,13 @@ func extractAuditLog(x *ExtractCtx) error {
 	type perV struct{ hash, bw, br *alFuncFacts }
 	vs := make([]perV, cur+2)
 	for v := 0; v <= cur+1; v++ {
-		if vs[v].hash, err = walkFunc(x, t, fields, ch, v, &verCmp); err != nil {
+		if vs[v].hash, err = c27WalkFunc(x, t, fields, ch, v, &verCmp); err != nil {
 			return fmt.Errorf("CalculateHash (version %d): %w", v, err)
 		}
-		if vs[v].bw, err = walkFunc(x, t, fields, be, v, &verCmp); err != nil {
+		if vs[v].bw, err = c27WalkFunc(x, t, fields, be, v, &verCmp); err != nil {
 			return fmt.Errorf("binary Encode (version %d): %w", v, err)
 		}
-		if vs[v].br, err = walkFunc(x, t, fields, bd, v, &verCmp); err != nil {
+		if vs[v].br, err = c27WalkFunc(x, t, fields, bd, v, &verCmp); err != nil {
 			return fmt.Errorf("binary Decode (version %d): %w", v, err)
 		}
 	}
@@ -1373,8 +1373,8 @@ func extractAuditLog(x *ExtractCtx) error {
 	// sections that must not depend on the version
 	for v := 1; v <= cur+1; v++ {
 		for _, pr := range [][2]*alFuncFacts{{vs[0].hash, vs[v].hash}, {vs[0].bw, vs[v].bw}, {vs[0].br, vs[v].br}} {
-			if !eventsEqual(pr[0].pre, pr[1].pre) || !eventsEqual(pr[0].tail, pr[1].tail) ||
-				!eventsEqual(pr[0].kinds["genesis"], pr[1].kinds["genesis"]) || !eventsEqual(pr[0].kinds["grounding"], pr[1].kinds["grounding"]) {
+			if !c27EventsEqual(pr[0].pre, pr[1].pre) || !c27EventsEqual(pr[0].tail, pr[1].tail) ||
+				!c27EventsEqual(pr[0].kinds["genesis"], pr[1].kinds["genesis"]) || !c27EventsEqual(pr[0].kinds["grounding"], pr[1].kinds["grounding"]) {
 				return fmt.Errorf("a version-dependent section other than the LOG details: not modelled")
 			}
 		}
@@ -1384,7 +1384,7 @@ func extractAuditLog(x *ExtractCtx) error {
 	if err != nil {
 		return err
 	}
-	jf, err := extractJSON(x, jsonF, fields)
+	jf, err := c27ExtractJSON(x, jsonF, fields)
 	if err != nil {
 		return fmt.Errorf("json.go: %w", err)
 	}
@@ -1411,12 +1411,12 @@ func extractAuditLog(x *ExtractCtx) error {
 	fmt.Fprintf(L, "def groundingBlockSize : Nat := %d\n", gbs)
 	fmt.Fprintf(L, "def typeGenesis : String := %s\ndef typeLog : String := %s\ndef typeGrounding : String := %s\n\n", LeanStr(tg), LeanStr(tl), LeanStr(tgr))
 	fmt.Fprintf(L, "/-- Leaf fields of the Go structs (declared width; 0 = string / []byte; time.Time = 8). -/\n")
-	fmt.Fprintf(L, "def entryFields : List (String × Nat) := %s\n", leanFields(entryFields))
-	fmt.Fprintf(L, "def logFields : List (String × Nat) := %s\n", leanFields(logFields))
-	fmt.Fprintf(L, "def groundingFields : List (String × Nat) := %s\n\n", leanFields(grFields))
+	fmt.Fprintf(L, "def entryFields : List (String × Nat) := %s\n", c27LeanFields(entryFields))
+	fmt.Fprintf(L, "def logFields : List (String × Nat) := %s\n", c27LeanFields(logFields))
+	fmt.Fprintf(L, "def groundingFields : List (String × Nat) := %s\n\n", c27LeanFields(grFields))
 
 	emitSection := func(name string, ev []alEvent) error {
-		s, err := leanEvents(ev)
+		s, err := c27LeanEvents(ev)
 		if err != nil {
 			return fmt.Errorf("%s: %w", name, err)
 		}
@@ -1426,7 +1426,7 @@ func extractAuditLog(x *ExtractCtx) error {
 	emitByVersion := func(name string, get func(v int) []alEvent) error {
 		fmt.Fprintf(L, "def %s : Nat → List (String × Nat)\n", name)
 		for v := 0; v <= cur+1; v++ {
-			s, err := leanEvents(get(v))
+			s, err := c27LeanEvents(get(v))
 			if err != nil {
 				return fmt.Errorf("%s v%d: %w", name, v, err)
 			}
@@ -1492,7 +1492,7 @@ func extractAuditLog(x *ExtractCtx) error {
 	for v := 0; v <= cur+1; v++ {
 		d := append([]string{}, vs[v].br.derived["log"]...)
 		sort.Strings(d)
-		d = dedupe(d)
+		d = c27Dedupe(d)
 		pat := strconv.Itoa(v)
 		if v == cur+1 {
 			pat = "_"
@@ -1502,21 +1502,21 @@ func extractAuditLog(x *ExtractCtx) error {
 
 	fmt.Fprintf(L, "\n/-- `JsonSerializer`: (field, json path, omitempty, codec). Versions ≤ jsonLegacyMax use the legacy LOG layout. -/\n")
 	fmt.Fprintf(L, "def jsonLegacyMax : Nat := %d\n", jf.legacyMax)
-	fmt.Fprintf(L, "def jsonEntryW : List (String × String × Bool × String) :=\n   %s\n", leanJSON(jf.entryW))
-	fmt.Fprintf(L, "def jsonEntryR : List (String × String × Bool × String) :=\n   %s\n", leanJSON(jf.entryR))
-	fmt.Fprintf(L, "def jsonLogW : List (String × String × Bool × String) :=\n   %s\n", leanJSON(jf.logW[2]))
-	fmt.Fprintf(L, "def jsonLogR : List (String × String × Bool × String) :=\n   %s\n", leanJSON(jf.logR[2]))
-	fmt.Fprintf(L, "def jsonLogLegacyW : List (String × String × Bool × String) :=\n   %s\n", leanJSON(jf.logW[1]))
-	fmt.Fprintf(L, "def jsonLogLegacyR : List (String × String × Bool × String) :=\n   %s\n", leanJSON(jf.logR[1]))
-	fmt.Fprintf(L, "def jsonGroundingW : List (String × String × Bool × String) :=\n   %s\n", leanJSON(jf.grW))
-	fmt.Fprintf(L, "def jsonGroundingR : List (String × String × Bool × String) :=\n   %s\n", leanJSON(jf.grR))
+	fmt.Fprintf(L, "def jsonEntryW : List (String × String × Bool × String) :=\n   %s\n", c27LeanJSON(jf.entryW))
+	fmt.Fprintf(L, "def jsonEntryR : List (String × String × Bool × String) :=\n   %s\n", c27LeanJSON(jf.entryR))
+	fmt.Fprintf(L, "def jsonLogW : List (String × String × Bool × String) :=\n   %s\n", c27LeanJSON(jf.logW[2]))
+	fmt.Fprintf(L, "def jsonLogR : List (String × String × Bool × String) :=\n   %s\n", c27LeanJSON(jf.logR[2]))
+	fmt.Fprintf(L, "def jsonLogLegacyW : List (String × String × Bool × String) :=\n   %s\n", c27LeanJSON(jf.logW[1]))
+	fmt.Fprintf(L, "def jsonLogLegacyR : List (String × String × Bool × String) :=\n   %s\n", c27LeanJSON(jf.logR[1]))
+	fmt.Fprintf(L, "def jsonGroundingW : List (String × String × Bool × String) :=\n   %s\n", c27LeanJSON(jf.grW))
+	fmt.Fprintf(L, "def jsonGroundingR : List (String × String × Bool × String) :=\n   %s\n", c27LeanJSON(jf.grR))
 	fmt.Fprintf(L, "def jsonLogDerivedR : List String := %s\n", LeanStrList(jf.logDerivedR[2]))
 	fmt.Fprintf(L, "def jsonLogLegacyDerivedR : List String := %s\n", LeanStrList(jf.logDerivedR[1]))
 	fmt.Fprintf(L, "\nend Pithos.Gen.AuditLog\n")
 	return nil
 }
 
-func dedupe(xs []string) []string {
+func c27Dedupe(xs []string) []string {
 	var out []string
 	for i, s := range xs {
 		if i == 0 || s != xs[i-1] {
